@@ -654,7 +654,7 @@ static void run_op(const std::vector<std::string> &w, const std::string &, out &
         // arrangement inside a class: the result is the canonical form (runs of equal elements sorted)
         o.result = canon_runs(kind, el, esize > 1);
         if (!L.bad.empty()) o.fail(L.bad);
-        if (L.stack_lo && n >= 32 && (size_t)(fp0 - L.stack_lo) >= n * 48) o.tag("recursion-depth~nmemb");
+        if (L.stack_lo && n >= 64 && (size_t)(fp0 - L.stack_lo) >= n * 96) o.tag("recursion-depth~nmemb");
         for (size_t i = 0; i + 1 < n; i++)
             if (cmp_keys(kind, now[i + 1][0], now[i][0]) < 0)
             {
